@@ -3,6 +3,8 @@ import HopModel.Driver.C20
 import HopModel.Driver.C03
 import HopModel.Driver.C01
 import HopModel.Driver.C02
+import HopModel.Driver.C13
+import HopModel.Driver.C12
 
 def main (args : List String) : IO UInt32 := do
   match args with
@@ -11,6 +13,8 @@ def main (args : List String) : IO UInt32 := do
   | "C03" :: rest => Driver.C03.main rest; return 0
   | "C01" :: rest => Driver.C01.main rest; return 0
   | "C02" :: rest => Driver.C02.main rest; return 0
+  | "C13" :: rest => Driver.C13.main rest; return 0
+  | "C12" :: rest => Driver.C12.main rest; return 0
   | _ =>
     IO.eprintln "usage: hopmodel <Cxx> [--spec] < ops.txt > model.txt"
     return 2
